@@ -48,6 +48,18 @@ def sort_axis(ctx, shape, axis, lkind, key=None, dkind='f', under=None):
         if key == 'neg':
             kw['key'] = lambda x: -x
             keyf = lambda l: -l
+        elif key == 'absdiff':
+            # distance to a pivot: the sorted order is, in general, not monotonic in the labels themselves
+            piv = ctx.label(lkind, 'pivot')
+
+            def keyf(l):
+                d = l - piv
+                return ctx.symx.ite(d >= 0, d, -d) if ctx.sym else abs(d)
+            kw['key'] = keyf
+            ks0 = [keyf(l) for l in labels[pos]]
+            for i in range(len(ks0)):
+                for j in range(i + 1, len(ks0)):
+                    ctx.assume(ks0[i] != ks0[j])
     r = ctx.call(lambda: a.sort_axis(**kw))
     if r[0] != 'ok':
         return ctx.done(False, r[1])
@@ -196,6 +208,9 @@ def templates():
     for lk in 'if':
         add('sort-key-neg-%s' % lk, 'sort_axis', cost=1, shape=[3], axis=0, lkind=lk, key='neg')
         add('sort-key-neg-2d-%s' % lk, 'sort_axis', cost=1, shape=[2, 3], axis='name1', lkind=lk, key='neg')
+    for lk in 'if':
+        add('sort-key-absdiff-%s' % lk, 'sort_axis', cost=1.5, shape=[3], axis=0, lkind=lk, key='absdiff')
+        add('sort-key-absdiff-2d-%s' % lk, 'sort_axis', cost=1.5, shape=[2, 3], axis='name1', lkind=lk, key='absdiff')
     add('sort-key-dict', 'sort_axis', cost=1, shape=[3], axis=0, lkind='i', key='dict')
     add('sort-key-dict-2d', 'sort_axis', cost=1, shape=[3, 2], axis='name0', lkind='i', key='dict')
     add('sort-int-data', 'sort_axis', cost=1, shape=[3], axis=0, lkind='i', dkind='i')
